@@ -532,6 +532,21 @@ def run_histories(ctx, cells):
     ctx.correspond("call_histories", pipeline.IMPORTS + " Model.C04Kinds", "show_history", "(cfg * list call)", cases, shard=2)
 
 
+def cex_search(ctx):
+    """every disagreement of a grid unit IS a concrete input (the cell): hand it over as a replayable failure"""
+    seen = set()
+    for d in ctx.disagreements:
+        show = d.case.get("show") if isinstance(d.case, dict) else None
+        if not isinstance(show, dict) or "focus" not in show:
+            continue
+        label = show.get("entry") or "%s/%s" % (show.get("kind", "authn"), show.get("binding", "post"))
+        key = "differs-from-model:%s:%s:%s" % (d.unit, label, show["focus"])
+        if key in seen:
+            continue
+        seen.add(key)
+        ctx.oracle_fail(key, "%s: implementation %r, model %s (cell %s)" % (d.unit, d.impl, " ".join(str(d.model).split())[:160], show), show)
+
+
 def replay(ctx, payload):
     env.tool_inprocess(True)
     c = payload.get("input")
